@@ -111,6 +111,10 @@ func runC12(s *kernel.Sim) {
 		body := fmt.Sprintf("body-%d-%s", n, pads[tp.Choose(len(pads))])
 		st := &c12stored{key: keyStr(k), at: s.Now(), size: len(body)}
 		hdr := map[string]string{"X-N": fmt.Sprint(n)}
+		raName := "Retry-After" // as configured; sometimes in another letter case, as a proxy may hand it over
+		if throttling && tp.Chance(1, 4) {
+			raName = []string{"retry-after", "RETRY-AFTER"}[tp.Choose(2)]
+		}
 		if throttling {
 			st.status = []int{429, 503, 200, 500}[tp.Choose(4)]
 			ra := float64(tp.Range(1, 6))
@@ -120,15 +124,15 @@ func runC12(s *kernel.Sim) {
 			st.retry, st.ttl, st.absolute = ra, time.Duration(ra*float64(time.Second)), absolute
 			if absolute {
 				epoch := time.Now().Unix() + int64(ra)
-				hdr["Retry-After"] = strconv.FormatInt(epoch, 10)
+				hdr[raName] = strconv.FormatInt(epoch, 10)
 				st.retry = float64(epoch)
 				// the engine computes the TTL from whole unix seconds
 				st.ttl = time.Duration(epoch-time.Now().Unix()) * time.Second
 			} else {
-				hdr["Retry-After"] = strconv.FormatFloat(ra, 'f', -1, 64)
+				hdr[raName] = strconv.FormatFloat(ra, 'f', -1, 64)
 			}
 			stored[body] = st
-			s.Event("response", st.key, fmt.Sprintf("status=%d retry-after=%s body#%d", st.status, hdr["Retry-After"], n))
+			s.Event("response", st.key, fmt.Sprintf("status=%d retry-after=%s body#%d", st.status, hdr[raName], n))
 			_, err := thr.OnResponse(lunarMessages.OnResponse{ID: fmt.Sprintf("t%d", n), Method: k.m, URL: k.u, Status: st.status, Body: body, Headers: hdr}, thrCfg)
 			if err != nil {
 				s.Violate("R1", "plugin-error", "OnResponse error: %v", err)
@@ -193,9 +197,15 @@ func runC12(s *kernel.Sim) {
 		}
 		if throttling {
 			s.Rule("R3")
-			got, perr := strconv.ParseFloat(er.Headers["Retry-After"], 64)
+			raw := ""
+			for hk, hv := range er.Headers {
+				if strings.EqualFold(hk, "Retry-After") {
+					raw = hv
+				}
+			}
+			got, perr := strconv.ParseFloat(raw, 64)
 			if perr != nil {
-				s.Violate("R3", "retry-after-unparsable", "replayed Retry-After %q", er.Headers["Retry-After"])
+				s.Violate("R3", "retry-after-unparsable", "replayed Retry-After %q", raw)
 			} else if st.absolute {
 				if got != st.retry {
 					s.Violate("R3", "retry-after-absolute-changed", "absolute Retry-After replayed as %v, original %v", got, st.retry)
